@@ -435,6 +435,14 @@ func (s *Spec) Normalize() *Spec {
 			o.Locs[i].Lines = nil
 		}
 	}
+	// the kernel relocation symbol is not part of the format: every reader derives it from the file name
+	for i := range o.Maps {
+		m := &o.Maps[i]
+		m.KRS = ""
+		if strings.HasPrefix(m.File, "[kernel.kallsyms]") {
+			m.KRS = m.File[len("[kernel.kallsyms]"):]
+		}
+	}
 	if o.PT == nil {
 		o.PT = &VT{}
 	}
